@@ -45,6 +45,14 @@ for kind in ("mem", "disk"):
     add("%s/second-handle-closed-under-writer" % kind,
         park_writer("txn.begin", "hclose h1", pre=["hopen h1"])[:-1] + [{"do": "run", "line": 'set c0 k2 exp=0 raw=0 v={"w":2}'}, {"do": "run", "line": "shutdownstate"}],
         kind, ["txn", "closehandle", "post", "txn", "post"])
+    # a second handle being opened while the bucket is being deleted under a writer (registry lock vs bucket mutex)
+    add("%s/writer@txn.begin-vs-CloseAndDelete-vs-OpenBucket" % kind,
+        [{"do": "park", "thread": "W", "point": "txn.begin"}, {"do": "spawn", "thread": "W", "line": SET},
+         {"do": "await", "thread": "W", "point": "txn.begin"},
+         {"do": "spawn", "thread": "C", "line": "cadh h0"}, {"do": "sleep", "ms": 40},
+         {"do": "spawn", "thread": "O", "line": "hopen h1"}, {"do": "sleep", "ms": 40},
+         {"do": "release", "thread": "W"}, {"do": "join", "thread": "W"}, {"do": "join", "thread": "C"}, {"do": "join", "thread": "O"},
+         {"do": "run", "line": "shutdownstate"}], kind, ["txn", "closestore", "post"])
     # feed start-up racing with shutdown
     for closer, acts in (("cadh h0", ["closestore", "register"]), ("hclose h0", [close_h0, "register"]), ("dropcoll c1 via=h0", ["drop", "register", "closestore"])):
         tail = [{"do": "run", "line": "cadh h0"}] if closer.startswith("dropcoll") else []
